@@ -181,27 +181,59 @@ def _final_pick(prog: Program, res: Result):
             for s in ast.walk(n):
                 if isinstance(s, ast.Assign) and len(s.targets) == 1 and isinstance(s.targets[0], ast.Name) and s.targets[0].id == var and isinstance(s.value, ast.Name):
                     scan = (n, s)
+    gen_scan = None
+    if scan is None:
+        # the same scan as an expression:  x = next((val for _, val in <sorted pairs> if val < 0), None);  var = x
+        for s in sorted((x for x in walk_no_nested(fn) if isinstance(x, ast.Assign) and len(x.targets) == 1 and isinstance(x.targets[0], ast.Name) and x.targets[0].id == var and x.lineno < pick.lineno),
+                        key=lambda x: x.lineno):
+            v_ = s.value
+            if isinstance(v_, ast.Name):
+                d_ = _def_of(fn, v_.id, s.lineno)
+                v_ = d_.value if d_ is not None else v_
+            if isinstance(v_, ast.Call) and attr_chain(v_.func) == "next" and v_.args and isinstance(v_.args[0], ast.GeneratorExp) and len(v_.args[0].generators) == 1:
+                gen_scan = (v_.args[0], s)
+    if gen_scan is not None:
+        ge, s = gen_scan
+        g = ge.generators[0]
+        # next() stops at the first element by construction; the element must be the excess column under a negative-excess filter
+        loop = ast.For(target=g.target, iter=g.iter, body=[], orelse=[], lineno=s.lineno)
+        neg = isinstance(ge.elt, ast.Name) and any(isinstance(t_, ast.Compare) and len(t_.ops) == 1 and ast.unparse(t_.left) == ge.elt.id and isinstance(t_.ops[0], (ast.Lt, ast.LtE))
+                                                      and isinstance(t_.comparators[0], ast.Constant) and t_.comparators[0].value == 0 for t_ in g.ifs)
+        res.ob("R05.1", "the scan stops at the first candidate with negative excess (next() over the filtered candidates)", neg, prog.loc(fi, s))
+        if not neg:
+            res.violation("R05.1", "scan-no-break", prog.loc(fi, s), Q, "the scan over the ordered candidates does not take the first candidate with negative excess")
+        s = ast.Assign(targets=s.targets, value=ge.elt, lineno=s.lineno)
+        scan = (loop, s)
     if scan is None:
         res.ob("R05.1", "the final pick scans the candidates for the smallest feasible field", False, prog.loc(fi, pick))
         res.violation("R05.1", "no-smallest-feasible-scan", prog.loc(fi, pick), Q,
                       "the final pick is no longer corrected to the smallest evaluated field with negative excess (under a non-monotone excess a larger field is returned)")
         return
     loop, s = scan
-    guard = next((g for g in ast.walk(loop) if isinstance(g, ast.If) and any(s is x for b in g.body for x in ast.walk(b))), None)
-    stops = guard is not None and any(isinstance(x, ast.Break) for b in guard.body for x in ast.walk(b))
-    res.ob("R05.1", "the scan stops at the first candidate with negative excess (assignment followed by break)", stops, prog.loc(fi, s))
-    if not stops:
-        res.violation("R05.1", "scan-no-break", prog.loc(fi, s), Q, "the scan over the ordered candidates does not stop at the first feasible one: the LAST (largest) feasible field wins")
-    # (c) the order: loop iterates zip(A, B) where (A, B) = unzip(sorted(zip(num_bh, values)))
+    if gen_scan is None:
+        guard = next((g for g in ast.walk(loop) if isinstance(g, ast.If) and any(s is x for b in g.body for x in ast.walk(b))), None)
+        stops = guard is not None and any(isinstance(x, ast.Break) for b in guard.body for x in ast.walk(b))
+        res.ob("R05.1", "the scan stops at the first candidate with negative excess (assignment followed by break)", stops, prog.loc(fi, s))
+        if not stops:
+            res.violation("R05.1", "scan-no-break", prog.loc(fi, s), Q, "the scan over the ordered candidates does not stop at the first feasible one: the LAST (largest) feasible field wins")
+    # (c) the order: loop iterates zip(A, B) where (A, B) = unzip(sorted(zip(num_bh, values))), or the sorted pairs themselves
     it = loop.iter
-    if not (isinstance(it, ast.Call) and attr_chain(it.func) == "zip" and len(it.args) == 2 and all(isinstance(a, ast.Name) for a in it.args)):
+    if isinstance(it, ast.Name):
+        d0 = _def_of(fn, it.id, loop.lineno)
+        it = d0.value if d0 is not None else it
+    direct = isinstance(it, ast.Call) and attr_chain(it.func) == "sorted"
+    if not direct and not (isinstance(it, ast.Call) and attr_chain(it.func) == "zip" and len(it.args) == 2 and all(isinstance(a, ast.Name) for a in it.args)):
         raise AnalysisError(f"{Q}: shape of the candidate scan '{ast.unparse(it)[:60]}' not understood")
     srt = None
-    d = _def_of(fn, it.args[1].id, loop.lineno)
-    if d is not None:
-        for c in ast.walk(d.value):
-            if isinstance(c, ast.Call) and attr_chain(c.func) == "sorted":
-                srt = c
+    d = None
+    if direct:
+        srt = it
+    else:
+        d = _def_of(fn, it.args[1].id, loop.lineno)
+        if d is not None:
+            for c in ast.walk(d.value):
+                if isinstance(c, ast.Call) and attr_chain(c.func) == "sorted":
+                    srt = c
     if srt is None:
         res.ob("R05.1", "candidates are ordered by borehole count", False, prog.loc(fi, loop))
         res.violation("R05.1", "candidates-not-sorted", prog.loc(fi, loop), Q, "the candidates scanned for the final pick are not sorted by their borehole count")
@@ -226,7 +258,7 @@ def _final_pick(prog: Program, res: Result):
         res.violation("R05.1", "sort-key", prog.loc(fi, srt), Q, f"the candidates are ordered by '{ast.unparse(z)[:80] if z is not None else '?'}' rather than by (len(coordinates_domain[key]), excess)")
     # unzip keeps the pairing: (A, B) = (list(t) for t in zip(*sorted(...))) and the loop reads B's element
     tgt = d.targets[0] if d is not None else None
-    okp = isinstance(tgt, ast.Tuple) and len(tgt.elts) == 2 and isinstance(tgt.elts[1], ast.Name) and tgt.elts[1].id == it.args[1].id
+    okp = direct or (isinstance(tgt, ast.Tuple) and len(tgt.elts) == 2 and isinstance(tgt.elts[1], ast.Name) and tgt.elts[1].id == it.args[1].id)
     ltg = loop.target
     okp = okp and isinstance(ltg, ast.Tuple) and len(ltg.elts) == 2 and isinstance(ltg.elts[1], ast.Name) and ltg.elts[1].id == s.value.id
     res.ob("R05.1", "the scanned value is the excess column of the sorted pairs", bool(okp), prog.loc(fi, loop))
@@ -358,7 +390,7 @@ def _nested(prog: Program, res: Result):
     fi = prog.func(q)
     res.analysed(q)
     fn = fi.node
-    loop = next((n for n in ast.walk(fn) if isinstance(n, ast.While)), None)
+    loop = next((n for n in ast.walk(fn) if isinstance(n, (ast.While, ast.For)) and any(isinstance(c_, ast.Call) and attr_chain(c_.func) == "self.search" for c_ in ast.walk(n))), None)
     if loop is None:
         raise AnalysisError(f"{q}: loop not found")
     # recorded drilling
@@ -405,33 +437,20 @@ def _nested(prog: Program, res: Result):
     if not oks:
         res.violation("R05.3", "stop-rule", prog.loc(fi, loop), q, "the scan over candidate lists no longer stops when the total drilling starts to increase")
     # choice of the list: min over calculated_heights values, mapped through its keys
-    ch = None
-    for s in walk_no_nested(fn):
-        if isinstance(s, ast.Assign) and isinstance(s.value, ast.Call) and attr_chain(s.value.func) in ("min", "max") and len(s.value.args) == 1 and isinstance(s.value.args[0], ast.Name):
-            d = _def_of(fn, s.value.args[0].id, s.lineno)
-            if d is not None and "self.calculated_heights.values()" in ast.unparse(d.value):
-                ch = s
-    if ch is None:
+    pick = sc.dict_argopt(fn, "self.calculated_heights")
+    if pick is None:
         raise AnalysisError(f"{q}: choice among the recorded drillings not found")
-    ok = attr_chain(ch.value.func) == "min"
+    ch = pick["node"]
+    ok = pick["func"] == "min"
     res.ob("R05.3", f"the list with the MINIMUM recorded drilling is chosen ({norm_stmt(ch)[:60]})", ok, prog.loc(fi, ch))
     if not ok:
         res.violation("R05.3", "list-choice-not-min", prog.loc(fi, ch), q, f"'{norm_stmt(ch)[:80]}' chooses the candidate list by something other than the minimum total drilling")
-    var = ch.targets[0].id
-    vals = ch.value.args[0].id
-    stmts = sorted((s for s in walk_no_nested(fn) if isinstance(s, ast.Assign)), key=lambda s: s.lineno)
-    idx = next((s for s in stmts if isinstance(s.value, ast.Call) and isinstance(s.value.func, ast.Attribute) and s.value.func.attr == "index"
-                and attr_chain(s.value.func.value) == vals and ast.unparse(s.value.args[0]) == var and s.lineno > ch.lineno), None)
-    okm = False
-    if idx is not None:
-        sel = next((s for s in stmts if isinstance(s.value, ast.Subscript) and ast.unparse(s.value.slice) == idx.targets[0].id and s.lineno > idx.lineno), None)
-        if sel is not None and isinstance(sel.value.value, ast.Name):
-            kd = _def_of(fn, sel.value.value.id, sel.lineno)
-            okm = kd is not None and "self.calculated_heights.keys()" in ast.unparse(kd.value)
-            if okm:
-                outer = sel.targets[0].id
-                uses = [n for n in ast.walk(fn) if isinstance(n, ast.Subscript) and ast.unparse(n.slice) == outer and attr_chain(n.value) in ("self.calculated_temperatures_nested", "self.coordinates_domain_nested", "self.nested_fieldDescriptors")]
-                okm = {attr_chain(u.value) for u in uses} >= {"self.calculated_temperatures_nested", "self.coordinates_domain_nested"}
+    D = "self.calculated_heights"
+    okm = pick["keys_src"] == f"list({D}.keys())" and pick["index_src"] == f"list({D}.values())" and pick["opt_src"] == f"list({D}.values())"
+    if okm:
+        outer = pick["target"]
+        uses = [n for n in ast.walk(fn) if isinstance(n, ast.Subscript) and ast.unparse(n.slice) == outer and attr_chain(n.value) in ("self.calculated_temperatures_nested", "self.coordinates_domain_nested", "self.nested_fieldDescriptors")]
+        okm = {attr_chain(u.value) for u in uses} >= {"self.calculated_temperatures_nested", "self.coordinates_domain_nested"}
     res.ob("R05.3", "the chosen drilling is mapped to its own list (keys of calculated_heights) whose evaluations and fields are then used", okm, prog.loc(fi, ch))
     if not okm:
         res.violation("R05.3", "list-mapping", prog.loc(fi, ch), q, "the minimum drilling is not mapped back to its own candidate list for the final selection")
